@@ -72,6 +72,14 @@ func (r *Reader) Header() (t plumbing.ObjectType, size int64, err error) {
 		return t, size, err
 	}
 
+	// Canonical Git (parse_loose_header) accepts decimal digits only: a
+	// sign is not part of the size field ("blob -12" / "blob +12").
+	for _, c := range raw {
+		if c < '0' || c > '9' {
+			return t, size, ErrHeader
+		}
+	}
+
 	size, err = strconv.ParseInt(string(raw), 10, 64)
 	if err != nil {
 		err = ErrHeader
